@@ -283,10 +283,39 @@ def selfCheck : String :=
   let bad := chk "t2data" Gen.Sections.mainTable ++ chk "t2data_xp" Gen.Sections.xpTable
   if bad.isEmpty then "ok" else "bad " ++ "; ".intercalate bad
 
+/-! hypotheses of the section theorems (Props/C01.lean), evaluated on an explored object -/
+def cycleNameB (n : Str) : Str := match fixBlockname (unfixBlockname n) with | .ok c => c | .error _ => n
+def goodNameB (n : Str) : Bool := n.length == 5 && !isBlank (unfixBlockname n) && !(unfixBlockname n).contains '\n'
+def goodBlockB (rocks : List Rock) (b : Block) : Bool :=
+  goodNameB b.name && b.rock.length == 5 && !b.rock.contains '\n' && rocks.any (·.name == .str b.rock) &&
+    (match b.centre with | none => true | some c => c.length == 3)
+def goodConnB (names : List Str) (c : Conn) : Bool :=
+  goodNameB c.b1 && goodNameB c.b2 && names.contains (cycleNameB c.b1) && names.contains (cycleNameB c.b2) &&
+    c.dist.length == 2 && !startsWith (unfixBlockname c.b1) c!"+++"
+def timesHypB (o : OutputTimes) : Bool :=
+  match o.time with
+  | some ts => o.d.get c!"num_times_specified" == some (.int (Int.ofNat ts.length)) && ts.all (· != .none)
+  | none => false
+
+def handleHyp (obj : List String) : String :=
+  match parseJ obj with
+  | some (j, []) =>
+    match dData j with
+    | none => "bad-object"
+    | some d =>
+      let names := d.blocks.map (fun b => cycleNameB b.name)
+      let cnt := fun (l : List Bool) => s!"{(l.filter id).length}/{l.length}"
+      let hist := (d.historyBlock ++ d.historyGen).map (fun i => i.name.length == 5 && !isBlank (unfixBlockname i.name))
+      "ok GoodBlock " ++ cnt (d.blocks.map (goodBlockB d.rocks)) ++ " GoodConn " ++ cnt (d.conns.map (goodConnB names)) ++
+        " GoodName(INCON) " ++ cnt (d.incon.map (fun e => goodNameB e.name)) ++ " Visible(FOFT,GOFT) " ++ cnt hist ++
+        " TIMES " ++ cnt (if d.outputTimes.isEmpty then [] else [timesHypB d.outputTimes])
+  | _ => "bad-request"
+
 def handle (ws : List String) : IO String :=
   match ws with
   | "write" :: mesh :: xp :: echo :: obj => pure (handleWrite mesh xp echo obj)
   | ["read", rf, main, mesh, pdat] => handleRead rf main mesh pdat
+  | "hyp" :: obj => pure (handleHyp obj)
   | ["chk"] => pure selfCheck
   | _ => pure "bad-op"
 
